@@ -1,7 +1,6 @@
 //! Container positions ("shapes") a newtype can sit in, generic over the element type so the
 //! same host is used for the nutype `T` and for its serde-derived twin.
 
-use std::collections::BTreeMap;
 use std::fmt;
 use std::marker::PhantomData;
 
@@ -307,12 +306,17 @@ fn b_two<X>(mut v: Vec<X>, a: &Aux) -> Two<X> {
 fn s_two<X>(h: Two<X>) -> (Vec<X>, String) {
     (vec![h.a, h.b], format!("{}", h.w))
 }
-fn b_mapval<X>(v: Vec<X>, a: &Aux) -> BTreeMap<String, X> {
-    v.into_iter().enumerate().map(|(i, x)| (a.keys[i % a.keys.len()].clone(), x)).collect()
+// NOTE: the map-value host keeps EVERY entry in document order. A `BTreeMap<String, X>` host
+// silently drops the earlier of two entries with the same key after having deserialized it, so the
+// twin side could "forget" a value the constructor rejects while T had already failed on it: the
+// oracle would then demand Ok where Err is right (false alarm seen with seed 3, RON document
+// {"k00":("\t\t\u{2007}"),"k00":("ı"),"":("}")}; corrected here, see DESIGN.md §8).
+fn b_mapval<X>(v: Vec<X>, a: &Aux) -> PairSeq<String, X> {
+    PairSeq(v.into_iter().enumerate().map(|(i, x)| (a.keys[i % a.keys.len()].clone(), x)).collect())
 }
-fn s_mapval<X>(h: BTreeMap<String, X>) -> (Vec<X>, String) {
-    let keys: Vec<String> = h.keys().cloned().collect();
-    (h.into_values().collect(), keys.join(","))
+fn s_mapval<X>(h: PairSeq<String, X>) -> (Vec<X>, String) {
+    let keys: Vec<String> = h.0.iter().map(|p| p.0.clone()).collect();
+    (h.0.into_iter().map(|p| p.1).collect(), keys.join(","))
 }
 fn b_mapkey<X>(v: Vec<X>, a: &Aux) -> PairSeq<X, u32> {
     PairSeq(v.into_iter().enumerate().map(|(i, x)| (x, a.id.wrapping_add(i as u32))).collect())
@@ -449,7 +453,7 @@ pub fn dispatch<D: Decl, V: ShapeVisitor<D>>(shape: ShapeId, v: V) -> V::Out {
         ShapeId::RecOf => v.visit::<Rec<D>, Rec<D::Twin>>(b_rec, b_rec, s_rec, s_rec, None),
         ShapeId::TwoOf => v.visit::<Two<D>, Two<D::Twin>>(b_two, b_two, s_two, s_two, None),
         ShapeId::MapVal => {
-            v.visit::<BTreeMap<String, D>, BTreeMap<String, D::Twin>>(b_mapval, b_mapval, s_mapval, s_mapval, None)
+            v.visit::<PairSeq<String, D>, PairSeq<String, D::Twin>>(b_mapval, b_mapval, s_mapval, s_mapval, None)
         }
         ShapeId::MapKey => v.visit::<PairSeq<D, u32>, PairSeq<D::Twin, u32>>(b_mapkey, b_mapkey, s_mapkey, s_mapkey, None),
         ShapeId::EnumOf => v.visit::<En<D>, En<D::Twin>>(b_enum, b_enum, s_enum, s_enum, None),
